@@ -34,6 +34,10 @@ def run(prog, rep):
                       'last sequence (UnexpectedEnd) is not mistaken for success', floor=6)
     check_failure_reported(prog, rep, 'R12.7')
     check_writer_result(prog, rep, 'R12.8')
+    # a tail shorter than one code unit (or an incomplete sequence) at the end of an encoded stream is ill-formed input: it must be replaced by the mark
+    # or reported, never left in the window (shared obligation with C13 R13.7 / C02 R2.9)
+    from rules import encoded_reader
+    encoded_reader.check(prog, rep, ids={'R13.7': 'R12.9'})
 
 
 def check_policy_forwarding(prog, rep, rule):
